@@ -91,6 +91,10 @@ def g1(F, res):
                     n_bad += 1
                 continue
             seen_flag = True
+            skipped_section = gi >= 3 and any(k.startswith('starts_with(') and "'.debug'" in k and v is True for k, v in a.items())
+            if skipped_section and not present:
+                n_ok += 1        # the per-section switch was read up front, but this world's section is one the loop skips
+                continue
             if present == (a[flag] == runs_when):
                 n_ok += 1
             else:
